@@ -495,6 +495,12 @@ def prec_cases(patterns: list[str], max_size: int, fmts: list[str]) -> list[dict
 
 
 def run(ctx: common.Ctx) -> None:
+    _run_main(ctx)
+    if not os.environ.get("VERIF_C17_ONLY"):
+        compose_stream(ctx, int((120 if ctx.tier == "quick" else 3000) * float(os.environ.get("VERIF_SCALE", "1"))) or 6)
+
+
+def _run_main(ctx: common.Ctx) -> None:
     _PER_KEY.clear()
     quick = ctx.tier == "quick"
     scale = float(os.environ.get("VERIF_SCALE", "1"))
@@ -630,6 +636,60 @@ def run(ctx: common.Ctx) -> None:
         ctx.inconc("part-incomplete:" + ",".join(part_missing))
         ctx.floor_evaluations = 10 ** 9
     ctx.max_samples = 10
+
+
+def compose_stream(ctx: common.Ctx, n: int) -> None:
+    """Sections with DISJOINT options over overlapping patterns, as mypy.ini and as pyproject.toml (module lists): the effective
+    per-module options must be the union of all matching sections, in both formats (vlib/tasks/c17_compose.py)."""
+    from vlib.tasks import c17_compose as CC
+    pats = ["a", "a.b", "a.*", "a.b.*", "*.b", "a.*.c", "*.c", "b", "b.*", "*.b.*"]
+    mods = module_names()
+
+    def cases() -> Iterator[dict[str, Any]]:
+        for k in range(n):
+            r = common.rng_for("C17", "compose", k if k < n * 2 // 3 else (ctx.seed, k))
+            bools = r.sample(CC.BOOL_OPTS, 4)
+            codes = {o: r.sample(v, 3) for o, v in CC.CODE_OPTS.items()}
+            sections = []
+            for si in range(r.randint(2, 4)):
+                opts: dict[str, Any] = {}
+                if bools and r.random() < 0.7:
+                    opts[bools.pop()] = "True"
+                for o in CC.CODE_OPTS:
+                    if codes[o] and r.random() < 0.5:
+                        opts[o] = [codes[o].pop()]
+                if not opts:
+                    opts[bools.pop() if bools else "warn_unreachable"] = "True"
+                sections.append({"patterns": r.sample(pats, r.choice([1, 1, 2, 3])), "opts": opts})
+            yield {"fn": "vlib.tasks.c17_compose:compose", "args": {"sections": sections, "modules": mods}, "_k": k}
+
+    with common.workdir("C17c") as wd:
+        with Pool(env=common.base_env(VERIF_POOL_ROOT=wd)) as pool:
+            for t, r in pool.imap(cases(), timeout=300):
+                if not r.get("ok"):
+                    ctx.inconc("compose:runner")
+                    continue
+                res = r["res"]
+                for fmt in ("ini", "toml"):
+                    got = res[fmt]
+                    if got.get("rejected"):
+                        ctx.violation(f"compose:{fmt}:config-rejected", f"valid composed config rejected: {got.get('err')}", {"task": t, "fmt": fmt, "err": got.get("err")})
+                        continue
+                    for m, exp in res["expected"].items():
+                        ctx.count()
+                        g = got["mods"][m]
+                        nmatch = sum(1 for sct in t["args"]["sections"] if any(CC.matches(p, m) for p in sct["patterns"]))
+                        if nmatch >= 2:
+                            ctx.nontriv("compose", t["_k"], fmt, m)
+                        ctx.cell(f"compose:{fmt}:matching-sections={min(nmatch, 3)}")
+                        if g != exp:
+                            bad = sorted(k for k in exp if g.get(k) != exp[k])
+                            kinds = sorted({("error-code-list" if k.endswith("error_code") else "bool") for k in bad})
+                            lost = any((set(exp[k]) - set(g[k])) if isinstance(exp[k], list) else (exp[k] and not g[k]) for k in bad)
+                            ctx.violation(f"compose:{fmt}:{'setting-lost' if lost else 'setting-leaked'}:{'+'.join(kinds)}:matching-sections={min(nmatch, 3)}",
+                                          f"module {m}: effective {bad} differ from the union of the matching sections ({fmt})",
+                                          {"task": t, "fmt": fmt, "module": m, "got": g, "expected": exp})
+                            break
 
 
 def judge_prec(ctx: common.Ctx, t: dict[str, Any], res: dict[str, Any]) -> None:
